@@ -89,6 +89,14 @@ CHECKS = {
          'manager: a buffer or RuleIDMatchError. The static bound is shown necessary by a witness. Tie: truncations, bit flips, size '
          'escapes, random strings through ContextManager.decompress (5 s limit) vs extracted model.',
          'proof of totality (per-function totality lemmas, shape invariant of the compute stage) + model/code correspondence', '7 C20'),
+
+ 'C12': ('Theorems c12_*: for canonical buffers, mappings with pairwise different values and indices, and objects built from them, '
+         'from_json(to_json x) = x (Leibniz equality of the model records, hence identical behaviour and identical re-serialisation) for '
+         'Buffer (through the byte-level constructor), MatchMapping (reverse dict comprehension and reload through the dict model), field / '
+         'packet descriptors, rule field descriptors (target value type chosen from the JSON value), rules and contexts. json.dumps/loads, '
+         'hex and enum<->str conversions trusted. Tie: JSON text and round-trip flags of every class vs extracted model; on the implementation: '
+         '==, re-serialisation, Padding membership of reloaded paddings, and managers on original vs reloaded contexts give bit-identical results.',
+         'proof (structural round trip through the dict model) + model/code correspondence', '7 C12'),
 }
 ALL = ['C%02d' % i for i in range(1, 21)]
 checks = []
